@@ -388,7 +388,7 @@ def standard_cases(thorough=False):
 
 # ----------------------------------------------------------------------------- orchestration
 INV_PROP = {"CrashAtomic": "C08", "NoVisibleBeforeDurable": "C09", "AckDurableT": "C09",
-            "FailureChangesNothing": "C15", "TmpEmptyAfterOp": "C16", "OneFilePerUser": "C16", "OnlyOwnPaths": "C03"}
+            "FailureChangesNothing": "C15", "TmpEmptyAfterOp": "C16", "OneFilePerUser": "C16", "RecordSurvives": "C16", "OnlyOwnPaths": "C03"}
 
 
 TRACE_CFG = """SPECIFICATION TraceSpec
@@ -399,7 +399,7 @@ POSTCONDITION TraceAccepted
 CHECK_DEADLOCK FALSE
 """
 PROP_INVS = {"C08": ["CrashAtomic"], "C09": ["NoVisibleBeforeDurable", "AckDurableT"], "C15": ["FailureChangesNothing"],
-             "C16": ["TmpEmptyAfterOp", "OneFilePerUser"], "C03": ["OnlyOwnPaths"]}
+             "C16": ["TmpEmptyAfterOp", "OneFilePerUser", "RecordSurvives"], "C03": ["OnlyOwnPaths"]}
 
 
 def tlc_trace(ctx, lines, name):
